@@ -21,7 +21,8 @@ def run(tier):
 
     beh = sm_common.gen(c, 300 if quick else 4000, c.seed + 3, "c07_sim")
     beh.sort(key=lambda b: -sum(1 for s in b["steps"] if s["op"] in ("apply", "apply_batch")))
-    beh = beh[: (120 if quick else 2500)]
+    beh = beh[: (110 if quick else 2500)]
+    beh += sm_common.gen_mcp_thin(c, 40 if quick else 1000, c.seed + 5)
     bf = vlib.write_ndjson(os.path.join(sc, "beh.ndjson"), beh)
     res = vlib.harness(["replay", "sm", bf, "--mode", "c07", "--jobs", 8], timeout=6000)
     summ = [r for r in res if r.get("kind") == "summary"][0]
@@ -37,7 +38,11 @@ def run(tier):
     c.assumptions += [
         "the three paths are entered through FileStore::apply_entry_to_state_machine, replicate_to_state_machine "
         "and process start-up, exactly as async-raft does",
-        "request kinds driven: config set/remove, namespace set/delete, user table set/remove, sequence next/range/set/remove",
+        "request kinds driven: config set (with type / description) / remove, namespace set/delete, user table set/remove, "
+        "sequence next/range/set/remove, persistent instance register/update/remove, cache set (plain, nx, xx) / remove, "
+        "MCP tool spec update/remove, MCP server add/update/publish/publish-history/remove",
+        "a fourth path S (a node that applied a prefix, compacted, restarted from the snapshot and applied the rest) is "
+        "compared with the leader path: a restarted node must answer as one that never restarted",
     ]
     shutil.rmtree(sc, ignore_errors=True)
     return c.finish(
